@@ -136,7 +136,9 @@ func (hs *serverHandshakeStateGM) readClientHello() (isResume bool, err error) {
 	}
 
 	c.vers, ok = c.config.mutualVersion(hs.clientHello.vers)
-	if !ok {
+	if !ok || c.vers != VersionGMSSL {
+		// a GMSSL-only server speaks protocol version 0x0101 and nothing else; answering with
+		// whatever other version the client named would pair GM suites with a version they do not belong to
 		c.sendAlert(alertProtocolVersion)
 		return false, fmt.Errorf("tls: client offered an unsupported, maximum protocol version of %x", hs.clientHello.vers)
 	}
